@@ -51,7 +51,7 @@ def generate(prop, seed, tier):
         G.add_closure_nt(spec, g, 'unit' if menu == 'unit' else 'small')
     method = g.choice(['fixed-point', 'fixed-point', 'newton', 'newton', 'linear'])
     return {'engine': 'solver', 'prop': prop, 'seed': seed, 'spec': spec, 'semiring': sem, 'method': method,
-            'tol': g.choice([1e-3, 1e-5, 1e-7]), 'kmax_mode': g.choice(['0', '1', '2', 'K-1', 'K', 'K+5', '1000', '1000', '1000']),
+            'tol': g.choice([1e-3, 1e-5, 1e-7, 1e-7, 0.0]), 'kmax_mode': g.choice(['0', '1', '2', 'K-1', 'K', 'K+5', '1000', '1000', '1000']),
             'env': {'alloc': {'mode': 'order', 'seed': seed}, 'axhash': seed,
                     'linalg_fail': g.choice([None, None, None, ['all'], [1], [3]]) if sem == 'real' else None,
                     'block_bytes': g.choice([None, None, 4096, 64, 8]), 'reduce_skip': g.random() < 0.2, 'dtype': 'float64'},
